@@ -1,17 +1,1847 @@
-//! C10 — correspondence driver (stub: not built yet).
+//! C10 — calls that are expected to panic followed by use of the surviving object, on tensors
+//! and tensor views (matrices: C11), and the access log of the `verif-hooks` monitor compared
+//! with the model's predicted leaf offsets.  See lean/Driver/C10.lean for the protocol.
+//!
+//! Every call runs under `catch_unwind(AssertUnwindSafe(..))`; afterwards the *same* object is
+//! observed (shape, stored element count, elements through every iterator flavour, checked
+//! indexing inside and outside the shape) and used by the following operations.
 
 use crate::util::*;
+use crate::with_d;
+use easy_ml::matrices::slices::{Slice, Slice2D};
+use easy_ml::matrices::Matrix;
+use easy_ml::tensors::indexing::{
+    TensorAccess, TensorIterator, TensorOwnedIterator, TensorReferenceIterator, TensorReferenceMutIterator,
+};
+use easy_ml::tensors::views::{
+    IndexRange, TensorChain, TensorIndex, TensorMask, TensorMut, TensorRange, TensorRef, TensorRename,
+    TensorReverse, TensorStack, TensorView,
+};
+use easy_ml::tensors::Tensor;
+use std::cell::Cell;
 
-pub fn gen(_g: &mut Gen) {}
+// ---------------------------------------------------------------------------------------------
+// the caller's object: a tensor of run-time dimensionality
+// ---------------------------------------------------------------------------------------------
 
-pub struct Runner;
+pub enum AnyT {
+    D0(Tensor<u64, 0>),
+    D1(Tensor<u64, 1>),
+    D2(Tensor<u64, 2>),
+    D3(Tensor<u64, 3>),
+    D4(Tensor<u64, 4>),
+    D5(Tensor<u64, 5>),
+    D6(Tensor<u64, 6>),
+}
+
+trait Wrap {
+    fn wrap(self) -> AnyT;
+}
+macro_rules! impl_wrap {
+    ($($d:literal $v:ident),*) => { $(impl Wrap for Tensor<u64, $d> { fn wrap(self) -> AnyT { AnyT::$v(self) } })* };
+}
+impl_wrap!(0 D0, 1 D1, 2 D2, 3 D3, 4 D4, 5 D5, 6 D6);
+
+macro_rules! on_t {
+    ($any:expr, $t:ident => $body:expr) => {
+        match $any {
+            AnyT::D0($t) => $body,
+            AnyT::D1($t) => $body,
+            AnyT::D2($t) => $body,
+            AnyT::D3($t) => $body,
+            AnyT::D4($t) => $body,
+            AnyT::D5($t) => $body,
+            AnyT::D6($t) => $body,
+        }
+    };
+}
+
+fn data(n: usize, base: u64) -> Vec<u64> {
+    (0..n as u64).map(|i| base + i).collect()
+}
+
+/// the index code the with-index closures add (same as `Driver.C10.code`)
+fn code(idx: &[usize]) -> u64 {
+    idx.iter().fold(0u64, |a, i| a.wrapping_mul(7).wrapping_add(*i as u64).wrapping_add(1))
+}
+
+fn show_u64s(v: &[u64]) -> String {
+    if v.is_empty() {
+        "-".into()
+    } else {
+        v.iter().map(|x| x.to_string()).collect::<Vec<_>>().join(",")
+    }
+}
+
+#[cfg(feature = "hooks")]
+fn storage_len<const D: usize>(t: &Tensor<u64, D>) -> usize {
+    t.verif_storage_len()
+}
+#[cfg(not(feature = "hooks"))]
+fn storage_len<const D: usize>(t: &Tensor<u64, D>) -> usize {
+    // `map` walks the stored elements directly
+    let n = Cell::new(0usize);
+    let _ = t.map(|x| {
+        n.set(n.get() + 1);
+        x
+    });
+    n.get()
+}
+
+/// How a call ended, for the part of the answer the property speaks about.
+fn out_str(r: &Result<(), PanicKind>) -> &'static str {
+    match r {
+        Ok(()) => "ok",
+        Err(PanicKind::Hook) => "panic(hook)",
+        Err(_) => "panic",
+    }
+}
+
+fn kind_str(r: &Result<(), PanicKind>) -> String {
+    match r {
+        Ok(()) => String::new(),
+        Err(k) => format!(" ## kind={}", k.as_str()),
+    }
+}
+
+/// The elements in iteration order, read with the requested iterator flavour.  Bounded, so a
+/// corrupted object cannot make the harness loop or allocate without end.
+fn read_data<const D: usize>(t: &mut Tensor<u64, D>, flavour: &str) -> String {
+    let limit = storage_len(t).saturating_add(2).min(1 << 20);
+    let r = catch(|| -> Vec<u64> {
+        match flavour {
+            "ref" => t.iter_reference().take(limit).cloned().collect(),
+            "mut" => t.iter_reference_mut().take(limit).map(|x| *x).collect(),
+            "owned" => t.clone().iter_owned().take(limit).collect(),
+            "view" => TensorView::from(&*t).iter().take(limit).collect(),
+            "wi" => t.iter().with_index().take(limit).map(|(_, x)| x).collect(),
+            "access" => t.index().iter().take(limit).collect(),
+            "refwi" => t.iter_reference().with_index().take(limit).map(|(_, x)| *x).collect(),
+            _ => t.iter().take(limit).collect(),
+        }
+    });
+    match r {
+        Ok(v) => show_u64s(&v),
+        Err(k) => panic_str(k),
+    }
+}
+
+fn show_state<const D: usize>(t: &mut Tensor<u64, D>, flavour: &str) -> String {
+    format!("shape={} len={} data={}", show_shape(&t.shape()), storage_len(t), read_data(t, flavour))
+}
+
+fn parse_panic_at(s: &str) -> Option<usize> {
+    if s == "-" {
+        None
+    } else {
+        Some(s.parse().expect("panic_at"))
+    }
+}
+
+// ---------------------------------------------------------------------------------------------
+// access log
+// ---------------------------------------------------------------------------------------------
+
+#[cfg(feature = "hooks")]
+fn logged(expect_leaf: &str, f: impl FnOnce()) -> String {
+    use easy_ml::verif_hooks::{start_log, take_log, Leaf};
+    start_log();
+    let r = catch(f);
+    let log = take_log();
+    if let Err(k) = r {
+        return match k {
+            PanicKind::Hook => "panic(hook)".to_string(),
+            k => format!("panic ## kind={}", k.as_str()),
+        };
+    }
+    let all_ok = log.iter().all(|a| a.ok && a.offset < a.len);
+    let leaf = |l: &Leaf| match l {
+        Leaf::Tensor => "tensor",
+        Leaf::Matrix => "matrix",
+        Leaf::MatrixPart => "matrixpart",
+    };
+    let kind = if log.iter().all(|a| leaf(&a.leaf) == expect_leaf) { expect_leaf } else { "MIXED-LEAVES" };
+    let m = if log.iter().all(|a| a.mutable) && !log.is_empty() {
+        "mut"
+    } else if log.iter().all(|a| !a.mutable) {
+        "imm"
+    } else {
+        "MIXED"
+    };
+    let len = log.first().map(|a| a.len);
+    let same = log.iter().all(|a| Some(a.len) == len && a.base == log[0].base);
+    let offs: Vec<String> = log.iter().map(|a| a.offset.to_string()).collect();
+    format!(
+        "accesses={} {} ## {} {} len={}{} offs={}",
+        log.len(),
+        if all_ok { "inbounds" } else { "OUT-OF-BOUNDS" },
+        kind,
+        m,
+        len.map(|l| l.to_string()).unwrap_or_else(|| "0".into()),
+        if same { "" } else { " SEVERAL-CONTAINERS" },
+        if offs.is_empty() { "-".to_string() } else { offs.join(",") }
+    )
+}
+
+#[cfg(not(feature = "hooks"))]
+fn logged(_expect_leaf: &str, _f: impl FnOnce()) -> String {
+    "no-hooks".to_string()
+}
+
+fn log_tensor<const D: usize>(t: &mut Tensor<u64, D>, flavour: &str, wi: bool) -> String {
+    let limit = storage_len(t).saturating_add(2).min(1 << 20);
+    match (flavour, wi) {
+        ("copy", false) => logged("tensor", || t.iter().take(limit).for_each(drop)),
+        ("copy", true) => logged("tensor", || t.iter().with_index().take(limit).for_each(drop)),
+        ("ref", false) => logged("tensor", || t.iter_reference().take(limit).for_each(drop)),
+        ("ref", true) => logged("tensor", || t.iter_reference().with_index().take(limit).for_each(drop)),
+        ("mut", false) => logged("tensor", || t.iter_reference_mut().take(limit).for_each(drop)),
+        ("mut", true) => logged("tensor", || t.iter_reference_mut().with_index().take(limit).for_each(drop)),
+        ("owned", false) => {
+            let c = t.clone();
+            logged("tensor", || c.iter_owned().take(limit).for_each(drop))
+        }
+        ("owned", true) => {
+            let c = t.clone();
+            logged("tensor", || c.iter_owned().with_index().take(limit).for_each(drop))
+        }
+        _ => "bad-flavour".into(),
+    }
+}
+
+fn log_access<const D: usize>(t: &mut Tensor<u64, D>, names: &[&'static str], flavour: &str) -> String {
+    if names.len() != D {
+        return "arity".into();
+    }
+    let names: [&'static str; D] = names_array(names);
+    let limit = storage_len(t).saturating_add(2).min(1 << 20);
+    // the constructor panics on a name list that is no ordering of the tensor's names
+    if catch(|| {
+        let _ = TensorAccess::from(&*t, names);
+    })
+    .is_err()
+    {
+        return "rejected".into();
+    }
+    match flavour {
+        "copy" => logged("tensor", || TensorAccess::from(&*t, names).iter().take(limit).for_each(drop)),
+        "ref" => logged("tensor", || TensorAccess::from(&*t, names).iter_reference().take(limit).for_each(drop)),
+        "mut" => logged("tensor", || {
+            TensorAccess::from(&mut *t, names).iter_reference_mut().take(limit).for_each(drop)
+        }),
+        "owned" => {
+            let c = t.clone();
+            logged("tensor", || {
+                TensorOwnedIterator::from(TensorAccess::from(c, names)).take(limit).for_each(drop)
+            })
+        }
+        _ => "bad-flavour".into(),
+    }
+}
+
+/// iteration of the requested flavour over any (view) source
+fn log_source<S: TensorMut<u64, D>, const D: usize>(mut v: S, flavour: &str, limit: usize) -> String {
+    match flavour {
+        "copy" => logged("tensor", || TensorIterator::from(&v).take(limit).for_each(drop)),
+        "ref" => logged("tensor", || TensorReferenceIterator::from(&v).take(limit).for_each(drop)),
+        "mut" => logged("tensor", || TensorReferenceMutIterator::from(&mut v).take(limit).for_each(drop)),
+        "owned" => logged("tensor", || TensorOwnedIterator::from(v).take(limit).for_each(drop)),
+        _ => "bad-flavour".into(),
+    }
+}
+
+/// `range:<name>.<start>.<len>` | `mask:<name>.<start>.<len>` | `reverse:<name>` over the tensor
+fn log_view<const D: usize>(t: &mut Tensor<u64, D>, adaptor: &str, flavour: &str) -> String {
+    let limit = storage_len(t).saturating_add(2).min(1 << 20);
+    let (kind, spec) = adaptor.split_once(':').expect("adaptor");
+    // the owning iterator leaves placeholders behind: it gets a clone
+    let mut copy;
+    let target: &mut Tensor<u64, D> = if flavour == "owned" {
+        copy = t.clone();
+        &mut copy
+    } else {
+        t
+    };
+    let shape = target.shape();
+    match kind {
+        "range" | "mask" => {
+            let parts: Vec<&str> = spec.split('.').collect();
+            let name = intern(parts[0]);
+            let (start, len): (usize, usize) = (parts[1].parse().unwrap(), parts[2].parse().unwrap());
+            let mut all: [Option<IndexRange>; D] = std::array::from_fn(|_| None);
+            match shape.iter().position(|d| d.0 == name) {
+                Some(d) => all[d] = Some(IndexRange::new(start, len)),
+                None => return "rejected".into(),
+            }
+            if kind == "range" {
+                match catch(|| TensorRange::from_all(&mut *target, all).ok()) {
+                    Ok(Some(v)) => log_source(v, flavour, limit),
+                    Ok(None) => "rejected".into(),
+                    Err(k) => panic_str(k),
+                }
+            } else {
+                match catch(|| TensorMask::from_all(&mut *target, all).ok()) {
+                    Ok(Some(v)) => log_source(v, flavour, limit),
+                    Ok(None) => "rejected".into(),
+                    Err(k) => panic_str(k),
+                }
+            }
+        }
+        "reverse" => {
+            let name = intern(spec);
+            match catch(|| TensorReverse::from(&mut *target, &[name])) {
+                Ok(v) => log_source(v, flavour, limit),
+                Err(PanicKind::Explicit) => "rejected".into(),
+                Err(k) => panic_str(k),
+            }
+        }
+        _ => "bad-adaptor".into(),
+    }
+}
+
+/// `index:<name>.<i>`: `TensorIndex::from(&mut tensor, [(name, i)])` (what `select` builds), one
+/// dimension fewer — the constructor must reject `i >= length` before any element is touched
+fn log_index(any: &mut AnyT, spec: &str, flavour: &str) -> String {
+    let (name, i) = spec.split_once('.').expect("name.index");
+    let name = intern(name);
+    let i: usize = i.parse().expect("index");
+    macro_rules! body {
+        ($t:ident, $d1:literal) => {{
+            let limit = storage_len($t).saturating_add(2).min(1 << 20);
+            let mut copy;
+            let target = if flavour == "owned" {
+                copy = $t.clone();
+                &mut copy
+            } else {
+                $t
+            };
+            match catch(|| TensorIndex::from(&mut *target, [(name, i)])) {
+                Ok(v) => log_source::<_, $d1>(v, flavour, limit),
+                Err(PanicKind::Explicit) => "rejected".into(),
+                Err(k) => panic_str(k),
+            }
+        }};
+    }
+    match any {
+        AnyT::D0(_) => "rejected".into(),
+        AnyT::D1(t) => body!(t, 0),
+        AnyT::D2(t) => body!(t, 1),
+        AnyT::D3(t) => body!(t, 2),
+        AnyT::D4(t) => body!(t, 3),
+        AnyT::D5(t) => body!(t, 4),
+        AnyT::D6(t) => body!(t, 5),
+    }
+}
+
+/// `TensorRename::from(&mut t, from)`, then `set_names(set)` under `catch_unwind`, then the view
+/// that survived is indexed by `req` (`TensorAccess::from`) and iterated
+fn log_rename<const D: usize>(
+    t: &mut Tensor<u64, D>,
+    from: &[&'static str],
+    set: &[&'static str],
+    req: &[&'static str],
+    flavour: &str,
+) -> String {
+    if from.len() != D || set.len() != D || req.len() != D {
+        return "arity".into();
+    }
+    let limit = storage_len(t).saturating_add(2).min(1 << 20);
+    let (from, set, req): ([&'static str; D], [&'static str; D], [&'static str; D]) =
+        (names_array(from), names_array(set), names_array(req));
+    let mut copy;
+    let target = if flavour == "owned" {
+        copy = t.clone();
+        &mut copy
+    } else {
+        t
+    };
+    let mut view = match catch(|| TensorRename::from(&mut *target, from)) {
+        Ok(v) => v,
+        Err(PanicKind::Explicit) => return "rejected".into(),
+        Err(k) => return panic_str(k),
+    };
+    let set_result = catch(|| view.set_names(set));
+    let head = format!(
+        "set={} names={}",
+        match set_result {
+            Ok(()) => "ok".to_string(),
+            Err(PanicKind::Explicit) => "panic".to_string(),
+            Err(k) => panic_str(k),
+        },
+        show_names(&view.view_shape().iter().map(|d| d.0).collect::<Vec<_>>())
+    );
+    match catch(move || TensorAccess::from(view, req)) {
+        Ok(a) => format!("{} {}", head, log_source(a, flavour, limit)),
+        Err(PanicKind::Explicit) => format!("{} access=rejected", head),
+        Err(k) => format!("{} {}", head, panic_str(k)),
+    }
+}
+
+// ---------------------------------------------------------------------------------------------
+// stack / chain views over several mutable tensors: accesses as <source>:<offset>
+// ---------------------------------------------------------------------------------------------
+
+#[cfg(feature = "hooks")]
+fn base_of<const D: usize>(t: &Tensor<u64, D>) -> usize {
+    use easy_ml::verif_hooks::{start_log, take_log};
+    start_log();
+    let _ = t.iter().next();
+    take_log().first().map(|a| a.base).unwrap_or(0)
+}
+
+#[cfg(feature = "hooks")]
+fn logged_multi(bases: &[usize], lens: &[usize], f: impl FnOnce()) -> String {
+    use easy_ml::verif_hooks::{start_log, take_log};
+    start_log();
+    let r = catch(f);
+    let log = take_log();
+    if let Err(k) = r {
+        return match k {
+            PanicKind::Hook => "panic(hook)".to_string(),
+            k => format!("panic ## kind={}", k.as_str()),
+        };
+    }
+    let all_ok = log.iter().all(|a| a.ok && a.offset < a.len);
+    let m = if log.iter().all(|a| a.mutable) && !log.is_empty() {
+        "mut"
+    } else if log.iter().all(|a| !a.mutable) {
+        "imm"
+    } else {
+        "MIXED"
+    };
+    let offs: Vec<String> = log
+        .iter()
+        .map(|a| match bases.iter().position(|b| *b == a.base) {
+            Some(i) => format!("{}:{}", i, a.offset),
+            None => format!("?:{}", a.offset),
+        })
+        .collect();
+    format!(
+        "accesses={} {} ## tensor {} lens={} offs={}",
+        log.len(),
+        if all_ok { "inbounds" } else { "OUT-OF-BOUNDS" },
+        m,
+        show_usizes(lens),
+        if offs.is_empty() { "-".to_string() } else { offs.join(",") }
+    )
+}
+
+#[cfg(not(feature = "hooks"))]
+fn base_of<const D: usize>(_t: &Tensor<u64, D>) -> usize {
+    0
+}
+#[cfg(not(feature = "hooks"))]
+fn logged_multi(_bases: &[usize], _lens: &[usize], _f: impl FnOnce()) -> String {
+    "no-hooks".to_string()
+}
+
+/// the requested iteration flavour or in-place map over a (stack / chain) view
+fn act_on_view<S: TensorMut<u64, D>, const D: usize>(
+    mut v: S,
+    action: &str,
+    limit: usize,
+    bases: &[usize],
+    lens: &[usize],
+) -> String {
+    match action {
+        "copy" => logged_multi(bases, lens, || TensorIterator::from(&v).take(limit).for_each(drop)),
+        "ref" => logged_multi(bases, lens, || TensorReferenceIterator::from(&v).take(limit).for_each(drop)),
+        "mut" => logged_multi(bases, lens, || TensorReferenceMutIterator::from(&mut v).take(limit).for_each(drop)),
+        "owned" => logged_multi(bases, lens, || TensorOwnedIterator::from(v).take(limit).for_each(drop)),
+        "map_mut" => logged_multi(bases, lens, || TensorView::from(v).map_mut(|x| x.wrapping_add(1))),
+        "map_mut_wi" => logged_multi(bases, lens, || {
+            TensorView::from(v).map_mut_with_index(|idx, x| x.wrapping_add(code(&idx)))
+        }),
+        _ => "bad-action".into(),
+    }
+}
+
+fn built<V>(r: Result<V, PanicKind>) -> Result<V, String> {
+    match r {
+        Ok(v) => Ok(v),
+        Err(PanicKind::Explicit) => Err("rejected".into()),
+        Err(k) => Err(panic_str(k)),
+    }
+}
+
+/// `@ zlog <chain|stack> <tuple|array> <along> <action> <shape>;<shape>;…`
+fn zlog(kind: &str, form: &str, along: &str, action: &str, shapes: &[Vec<(&'static str, usize)>]) -> String {
+    let d = shapes[0].len();
+    if shapes.iter().any(|s| s.len() != d) {
+        return "rejected".into();
+    }
+    let k = shapes.len();
+    macro_rules! go {
+        ($D:ident, $DV:expr, $make2:expr, $make3:expr, $make4:expr, $makea1:expr, $makea2:expr, $makea3:expr, $makea4:expr) => {{
+            // the sources: tensors with the values 0.. (every one of them held mutably by the view)
+            let mut ts: Vec<Tensor<u64, $D>> = vec![];
+            for (i, sh) in shapes.iter().enumerate() {
+                let n: usize = sh.iter().map(|x| x.1).product();
+                match catch(|| Tensor::<u64, $D>::from(shape_array(sh), data(n, 1000 * i as u64))) {
+                    Ok(t) => ts.push(t),
+                    Err(_) => return "rejected".into(),
+                }
+            }
+            let bases: Vec<usize> = ts.iter().map(|t| base_of(t)).collect();
+            let lens: Vec<usize> = ts.iter().map(|t| storage_len(t)).collect();
+            let limit = lens.iter().sum::<usize>().saturating_add(2);
+            let mut it = ts.iter_mut();
+            match (form, k) {
+                ("tuple", 2) => {
+                    let s = (it.next().unwrap(), it.next().unwrap());
+                    match built(catch(|| $make2(s))) {
+                        Ok(v) => act_on_view::<_, { $DV }>(v, action, limit, &bases, &lens),
+                        Err(e) => e,
+                    }
+                }
+                ("tuple", 3) => {
+                    let s = (it.next().unwrap(), it.next().unwrap(), it.next().unwrap());
+                    match built(catch(|| $make3(s))) {
+                        Ok(v) => act_on_view::<_, { $DV }>(v, action, limit, &bases, &lens),
+                        Err(e) => e,
+                    }
+                }
+                ("tuple", 4) => {
+                    let s = (it.next().unwrap(), it.next().unwrap(), it.next().unwrap(), it.next().unwrap());
+                    match built(catch(|| $make4(s))) {
+                        Ok(v) => act_on_view::<_, { $DV }>(v, action, limit, &bases, &lens),
+                        Err(e) => e,
+                    }
+                }
+                ("array", 1) => {
+                    let s = [it.next().unwrap()];
+                    match built(catch(|| $makea1(s))) {
+                        Ok(v) => act_on_view::<_, { $DV }>(v, action, limit, &bases, &lens),
+                        Err(e) => e,
+                    }
+                }
+                ("array", 2) => {
+                    let s = [it.next().unwrap(), it.next().unwrap()];
+                    match built(catch(|| $makea2(s))) {
+                        Ok(v) => act_on_view::<_, { $DV }>(v, action, limit, &bases, &lens),
+                        Err(e) => e,
+                    }
+                }
+                ("array", 3) => {
+                    let s = [it.next().unwrap(), it.next().unwrap(), it.next().unwrap()];
+                    match built(catch(|| $makea3(s))) {
+                        Ok(v) => act_on_view::<_, { $DV }>(v, action, limit, &bases, &lens),
+                        Err(e) => e,
+                    }
+                }
+                ("array", 4) => {
+                    let s = [it.next().unwrap(), it.next().unwrap(), it.next().unwrap(), it.next().unwrap()];
+                    match built(catch(|| $makea4(s))) {
+                        Ok(v) => act_on_view::<_, { $DV }>(v, action, limit, &bases, &lens),
+                        Err(e) => e,
+                    }
+                }
+                _ => "bad-form".into(),
+            }
+        }};
+    }
+    if kind == "chain" {
+        let along = intern(along);
+        macro_rules! chain_d {
+            ($n:literal) => {{
+                const D: usize = $n;
+                go!(
+                    D,
+                    D,
+                    |s| TensorChain::<u64, (_, _), D>::from(s, along),
+                    |s| TensorChain::<u64, (_, _, _), D>::from(s, along),
+                    |s| TensorChain::<u64, (_, _, _, _), D>::from(s, along),
+                    |s| TensorChain::<u64, [_; 1], D>::from(s, along),
+                    |s| TensorChain::<u64, [_; 2], D>::from(s, along),
+                    |s| TensorChain::<u64, [_; 3], D>::from(s, along),
+                    |s| TensorChain::<u64, [_; 4], D>::from(s, along)
+                )
+            }};
+        }
+        match d {
+            1 => chain_d!(1),
+            2 => chain_d!(2),
+            3 => chain_d!(3),
+            _ => "rejected".into(),
+        }
+    } else {
+        let (pos, name) = along.split_once(':').expect("pos:name");
+        let along: (usize, &'static str) = (pos.parse().expect("pos"), intern(name));
+        macro_rules! stack_d {
+            ($n:literal) => {{
+                const D: usize = $n;
+                go!(
+                    D,
+                    D + 1,
+                    |s| TensorStack::<u64, (_, _), D>::from(s, along),
+                    |s| TensorStack::<u64, (_, _, _), D>::from(s, along),
+                    |s| TensorStack::<u64, (_, _, _, _), D>::from(s, along),
+                    |s| TensorStack::<u64, [_; 1], D>::from(s, along),
+                    |s| TensorStack::<u64, [_; 2], D>::from(s, along),
+                    |s| TensorStack::<u64, [_; 3], D>::from(s, along),
+                    |s| TensorStack::<u64, [_; 4], D>::from(s, along)
+                )
+            }};
+        }
+        match d {
+            0 => stack_d!(0),
+            1 => stack_d!(1),
+            2 => stack_d!(2),
+            _ => "rejected".into(),
+        }
+    }
+}
+
+fn log_matrix(rows: usize, cols: usize, order: &str, flavour: &str) -> String {
+    let m = match catch(|| Matrix::from_flat_row_major((rows, cols), (0..(rows * cols) as u64).collect())) {
+        Ok(m) => m,
+        Err(_) => return "rejected".into(),
+    };
+    let mut m = m;
+    let limit = rows * cols + 2;
+    let (what, arg) = match order.split_once(':') {
+        Some((w, a)) => (w, a.parse::<usize>().expect("line index")),
+        None => (order, 0),
+    };
+    // the line iterators' constructors assert that the row / column exists
+    let valid = match what {
+        "row" => catch(|| {
+            let _ = m.row_iter(arg);
+        })
+        .is_ok(),
+        "column" => catch(|| {
+            let _ = m.column_iter(arg);
+        })
+        .is_ok(),
+        _ => true,
+    };
+    if !valid {
+        return "rejected".into();
+    }
+    match (what, flavour) {
+        ("row_major", "copy") => logged("matrix", || m.row_major_iter().take(limit).for_each(drop)),
+        ("row_major", "ref") => logged("matrix", || m.row_major_reference_iter().take(limit).for_each(drop)),
+        ("row_major", "mut") => logged("matrix", || m.row_major_reference_mut_iter().take(limit).for_each(drop)),
+        ("row_major", "owned") => logged("matrix", || m.row_major_owned_iter().take(limit).for_each(drop)),
+        ("column_major", "copy") => logged("matrix", || m.column_major_iter().take(limit).for_each(drop)),
+        ("column_major", "ref") => logged("matrix", || m.column_major_reference_iter().take(limit).for_each(drop)),
+        ("column_major", "mut") => {
+            logged("matrix", || m.column_major_reference_mut_iter().take(limit).for_each(drop))
+        }
+        ("column_major", "owned") => logged("matrix", || m.column_major_owned_iter().take(limit).for_each(drop)),
+        ("row", "copy") => logged("matrix", || m.row_iter(arg).take(limit).for_each(drop)),
+        ("row", "ref") => logged("matrix", || m.row_reference_iter(arg).take(limit).for_each(drop)),
+        ("row", "mut") => logged("matrix", || m.row_reference_mut_iter(arg).take(limit).for_each(drop)),
+        ("column", "copy") => logged("matrix", || m.column_iter(arg).take(limit).for_each(drop)),
+        ("column", "ref") => logged("matrix", || m.column_reference_iter(arg).take(limit).for_each(drop)),
+        ("column", "mut") => logged("matrix", || m.column_reference_mut_iter(arg).take(limit).for_each(drop)),
+        ("diagonal", "copy") => logged("matrix", || m.diagonal_iter().take(limit).for_each(drop)),
+        ("diagonal", "ref") => logged("matrix", || m.diagonal_reference_iter().take(limit).for_each(drop)),
+        ("diagonal", "mut") => logged("matrix", || m.diagonal_reference_mut_iter().take(limit).for_each(drop)),
+        _ => "bad-flavour".into(),
+    }
+}
+
+#[cfg(feature = "hooks")]
+fn matrix_len(m: &Matrix<u64>) -> usize {
+    m.verif_storage_len()
+}
+#[cfg(not(feature = "hooks"))]
+fn matrix_len(m: &Matrix<u64>) -> usize {
+    let n = Cell::new(0usize);
+    let _ = m.map(|x| {
+        n.set(n.get() + 1);
+        x
+    });
+    n.get()
+}
+
+fn show_matrix_result(r: Result<Matrix<u64>, PanicKind>) -> String {
+    match r {
+        Ok(m) => {
+            // use the object: a bounded walk over its elements (an unchecked access per item)
+            let (rows, cols) = m.size();
+            let len = matrix_len(&m);
+            let used = match catch(|| m.row_major_iter().take(len.saturating_add(2).min(1 << 20)).count()) {
+                Ok(n) => n.to_string(),
+                Err(k) => panic_str(k),
+            };
+            format!("ok {}x{} len={} use={}", rows, cols, len, used)
+        }
+        Err(PanicKind::Hook) => "panic(hook)".into(),
+        Err(k) => format!("panic ## kind={}", k.as_str()),
+    }
+}
+
+// ---------------------------------------------------------------------------------------------
+// operations on the caller's tensor
+// ---------------------------------------------------------------------------------------------
+
+/// Tensor::from / try_from at a run-time dimensionality: Ok(Some) accepted, Ok(None) `Err`
+fn construct(shape: &[(&'static str, usize)], n: usize, base: u64, fallible: bool) -> Result<Option<AnyT>, PanicKind> {
+    with_d!(shape.len(), D => {
+        let sh: [(&'static str, usize); D] = shape_array(shape);
+        if fallible {
+            catch(|| Tensor::<u64, D>::try_from(sh, data(n, base)).ok().map(|t| t.wrap()))
+        } else {
+            catch(|| Some(Tensor::<u64, D>::from(sh, data(n, base)).wrap()))
+        }
+    })
+}
+
+/// What an operation did: how the call ended and, if it produced a new object, the replacement.
+struct Done {
+    out: Result<(), PanicKind>,
+    err: bool,
+    replace: Option<AnyT>,
+}
+
+fn done(out: Result<(), PanicKind>) -> Done {
+    Done { out, err: false, replace: None }
+}
+
+fn mutate<const D: usize>(t: &mut Tensor<u64, D>, toks: &[&str]) -> Done
+where
+    Tensor<u64, D>: Wrap,
+{
+    let via = opt_arg("via", toks).unwrap_or("");
+    match toks[0] {
+        "reshape_mut" => {
+            let shape = parse_shape(toks[1]);
+            if shape.len() != D {
+                return Done { out: Ok(()), err: true, replace: None };
+            }
+            let sh: [(&'static str, usize); D] = shape_array(&shape);
+            done(catch(|| t.reshape_mut(sh)))
+        }
+        "reshape_owned" => {
+            let shape = parse_shape(toks[1]);
+            // the call consumes its receiver: a caller that wants to survive a panic passes a clone
+            let c = t.clone();
+            with_d!(shape.len(), D2 => {
+                let sh: [(&'static str, usize); D2] = shape_array(&shape);
+                match catch(|| c.reshape_owned(sh)) {
+                    Ok(t2) => Done { out: Ok(()), err: false, replace: Some(t2.wrap()) },
+                    Err(k) => done(Err(k)),
+                }
+            })
+        }
+        "rename" => {
+            let names = parse_names(toks[1]);
+            if names.len() != D {
+                return Done { out: Ok(()), err: true, replace: None };
+            }
+            let names: [&'static str; D] = names_array(&names);
+            if via == "rename_owned" {
+                let c = t.clone();
+                match catch(|| c.rename_owned(names)) {
+                    Ok(t2) => Done { out: Ok(()), err: false, replace: Some(t2.wrap()) },
+                    Err(k) => done(Err(k)),
+                }
+            } else {
+                done(catch(|| t.rename(names)))
+            }
+        }
+        "transpose_mut" | "reorder_mut" => {
+            let names = parse_names(toks[1]);
+            if names.len() != D {
+                // not expressible: the model answers "panic" for a list of another length
+                return done(Err(PanicKind::Explicit));
+            }
+            let names: [&'static str; D] = names_array(&names);
+            let transpose = toks[0] == "transpose_mut";
+            if via == "alloc" {
+                match catch(|| if transpose { t.transpose(names) } else { t.reorder(names) }) {
+                    Ok(t2) => Done { out: Ok(()), err: false, replace: Some(t2.wrap()) },
+                    Err(k) => done(Err(k)),
+                }
+            } else {
+                done(catch(|| if transpose { t.transpose_mut(names) } else { t.reorder_mut(names) }))
+            }
+        }
+        "map_mut" => {
+            let k: u64 = toks[1].parse().expect("k");
+            let p = parse_panic_at(toks[2]);
+            let calls = Cell::new(0usize);
+            let f = |x: u64| -> u64 {
+                if Some(calls.get()) == p {
+                    panic!("closure panics on call {}", calls.get());
+                }
+                calls.set(calls.get() + 1);
+                x.wrapping_add(k)
+            };
+            done(catch(|| match via {
+                "view" => TensorView::from(&mut *t).map_mut(f),
+                "access" => t.index_mut().map_mut(f),
+                _ => t.map_mut(f),
+            }))
+        }
+        "map_mut_with_index" => {
+            let k: u64 = toks[1].parse().expect("k");
+            let p = parse_panic_at(toks[2]);
+            let calls = Cell::new(0usize);
+            let f = |idx: [usize; D], x: u64| -> u64 {
+                if Some(calls.get()) == p {
+                    panic!("closure panics on call {}", calls.get());
+                }
+                calls.set(calls.get() + 1);
+                x.wrapping_add(k).wrapping_add(code(&idx))
+            };
+            done(catch(|| match via {
+                "view" => TensorView::from(&mut *t).map_mut_with_index(f),
+                "access" => t.index_mut().map_mut_with_index(f),
+                _ => t.map_mut_with_index(f),
+            }))
+        }
+        "access_map_mut" => {
+            let names = parse_names(toks[1]);
+            if names.len() != D {
+                return done(Err(PanicKind::Explicit));
+            }
+            let names: [&'static str; D] = names_array(&names);
+            let k: u64 = toks[2].parse().expect("k");
+            let p = parse_panic_at(toks[3]);
+            let calls = Cell::new(0usize);
+            let f = |idx: [usize; D], x: u64| -> u64 {
+                if Some(calls.get()) == p {
+                    panic!("closure panics on call {}", calls.get());
+                }
+                calls.set(calls.get() + 1);
+                x.wrapping_add(k).wrapping_add(code(&idx))
+            };
+            done(catch(|| match via {
+                "index_by_mut" => t.index_by_mut(names).map_mut_with_index(f),
+                "view" => TensorView::from(&mut *t).index_by_mut(names).map_mut_with_index(f),
+                _ => TensorAccess::from(&mut *t, names).map_mut_with_index(f),
+            }))
+        }
+        "set" => {
+            let idx = parse_usizes(toks[1]);
+            if idx.len() != D {
+                return Done { out: Ok(()), err: true, replace: None };
+            }
+            let idx: [usize; D] = to_array(&idx);
+            let v: u64 = toks[2].parse().expect("v");
+            let r = catch(|| {
+                let cell = match via {
+                    "access" => t.index_mut().try_get_reference_mut(idx).map(|x| *x = v),
+                    "view" => {
+                        let mut view = TensorView::from(&mut *t);
+                        view.source_ref_mut().get_reference_mut(idx).map(|x| *x = v)
+                    }
+                    _ => t.get_reference_mut(idx).map(|x| *x = v),
+                };
+                cell.is_some()
+            });
+            match r {
+                Ok(true) => done(Ok(())),
+                Ok(false) => Done { out: Ok(()), err: true, replace: None },
+                Err(k) => done(Err(k)),
+            }
+        }
+        _ => panic!("unknown operation {}", toks[0]),
+    }
+}
+
+fn get<const D: usize>(t: &mut Tensor<u64, D>, toks: &[&str]) -> String {
+    let idx = parse_usizes(toks[1]);
+    if idx.len() != D {
+        return "none".into();
+    }
+    let idx: [usize; D] = to_array(&idx);
+    let r = match opt_arg("via", toks).unwrap_or("") {
+        "access" => catch(|| t.index().try_get_reference(idx).cloned()),
+        "view" => catch(|| TensorView::from(&*t).index().try_get_reference(idx).cloned()),
+        "panicking" => match catch(|| t.index().get(idx)) {
+            Ok(v) => Ok(Some(v)),
+            Err(PanicKind::Explicit) => Ok(None),
+            Err(k) => Err(k),
+        },
+        _ => catch(|| t.get_reference(idx).cloned()),
+    };
+    match r {
+        Ok(Some(v)) => format!("some({})", v),
+        Ok(None) => "none".into(),
+        Err(k) => panic_str(k),
+    }
+}
+
+// ---------------------------------------------------------------------------------------------
+// a matrix that is resized with invalid arguments and then used again (no guard: the walk over
+// the survivor goes straight to the unchecked accessors, under the monitor)
+// ---------------------------------------------------------------------------------------------
+
+fn parse_simple_slice(s: &str) -> Slice {
+    let (name, args) = match s.find('(') {
+        Some(p) => (&s[..p], &s[p + 1..s.len() - 1]),
+        None => (s, ""),
+    };
+    // split at top-level commas
+    let mut parts: Vec<&str> = vec![];
+    let (mut depth, mut start) = (0i32, 0usize);
+    for (i, ch) in args.char_indices() {
+        match ch {
+            '(' => depth += 1,
+            ')' => depth -= 1,
+            ',' if depth == 0 => {
+                parts.push(&args[start..i]);
+                start = i + 1;
+            }
+            _ => {}
+        }
+    }
+    if !args.is_empty() {
+        parts.push(&args[start..]);
+    }
+    match (name, parts.len()) {
+        ("all", 0) => Slice::All(),
+        ("none", 0) => Slice::None(),
+        ("single", 1) => Slice::Single(parts[0].parse().expect("single")),
+        ("range", 2) => Slice::Range(parts[0].parse().expect("range")..parts[1].parse().expect("range")),
+        ("not", 1) => parse_simple_slice(parts[0]).not(),
+        ("and", 2) => parse_simple_slice(parts[0]).and(parse_simple_slice(parts[1])),
+        ("or", 2) => parse_simple_slice(parts[0]).or(parse_simple_slice(parts[1])),
+        _ => panic!("bad slice {}", s),
+    }
+}
+
+fn matrix_op(m: &mut Matrix<u64>, toks: &[&str]) -> Result<(), PanicKind> {
+    let n = |i: usize| -> usize { toks[i].parse().expect("index") };
+    let vals = |i: usize| -> Vec<u64> { split_comma(toks[i]).iter().map(|t| t.parse().expect("value")).collect() };
+    match toks[0] {
+        "insert_row" => catch(|| m.insert_row(n(1), toks[2].parse().unwrap())),
+        "insert_column" => catch(|| m.insert_column(n(1), toks[2].parse().unwrap())),
+        "insert_row_with" => {
+            let vs = vals(2);
+            catch(|| m.insert_row_with(n(1), vs.into_iter()))
+        }
+        "insert_column_with" => {
+            let vs = vals(2);
+            catch(|| m.insert_column_with(n(1), vs.into_iter()))
+        }
+        "remove_row" => catch(|| m.remove_row(n(1))),
+        "remove_column" => catch(|| m.remove_column(n(1))),
+        "retain_mut" => {
+            let rows = parse_simple_slice(opt_arg("rows", toks).expect("rows="));
+            let cols = parse_simple_slice(opt_arg("cols", toks).expect("cols="));
+            catch(|| m.retain_mut(Slice2D::new().rows(rows).columns(cols)))
+        }
+        "transpose_mut" => catch(|| m.transpose_mut()),
+        _ => panic!("unknown matrix operation {}", toks[0]),
+    }
+}
+
+/// size, stored element count and a bounded walk over the elements in both orders
+fn show_matrix_state(m: &Matrix<u64>) -> String {
+    let (rows, cols) = m.size();
+    let len = matrix_len(m);
+    let limit = len.saturating_add(2).min(1 << 20);
+    let used = match catch(|| (m.row_major_iter().take(limit).count(), m.column_major_iter().take(limit).count())) {
+        Ok((a, b)) if a == b => a.to_string(),
+        Ok((a, b)) => format!("{}/{}", a, b),
+        Err(k) => panic_str(k),
+    };
+    format!("{}x{} len={} use={}", rows, cols, len, used)
+}
+
+// ---------------------------------------------------------------------------------------------
+// an element type whose `Clone` panics on a chosen call (user code running inside the library)
+// ---------------------------------------------------------------------------------------------
+
+thread_local! {
+    /// calls of `Pc::clone` left before one panics (`None`: never) — harness state, not the library's
+    static CLONES_LEFT: Cell<Option<usize>> = const { Cell::new(None) };
+}
+
+#[derive(Debug, PartialEq)]
+pub struct Pc(u64);
+
+impl Clone for Pc {
+    fn clone(&self) -> Pc {
+        CLONES_LEFT.with(|b| match b.get() {
+            Some(0) => {
+                b.set(None);
+                panic!("Clone panics");
+            }
+            Some(n) => b.set(Some(n - 1)),
+            None => {}
+        });
+        Pc(self.0)
+    }
+}
+
+/// size, stored element count, and a bounded walk by reference (no clones) in both orders
+fn show_pc_state(m: &Matrix<Pc>) -> String {
+    let (rows, cols) = m.size();
+    #[cfg(feature = "hooks")]
+    let len = m.verif_storage_len();
+    #[cfg(not(feature = "hooks"))]
+    let len = rows * cols;
+    let limit = len.saturating_add(2).min(1 << 20);
+    let used = match catch(|| {
+        (m.row_major_reference_iter().take(limit).count(), m.column_major_reference_iter().take(limit).count())
+    }) {
+        Ok((a, b)) if a == b => a.to_string(),
+        Ok((a, b)) => format!("{}/{}", a, b),
+        Err(k) => panic_str(k),
+    };
+    format!("{}x{} len={} use={}", rows, cols, len, used)
+}
+
+fn pc_op(m: &mut Matrix<Pc>, toks: &[&str]) -> Result<(), PanicKind> {
+    let i: usize = toks[1].parse().expect("index");
+    let v: u64 = toks[2].parse().expect("value");
+    let p = parse_panic_at(toks[3]);
+    let value = Pc(v);
+    CLONES_LEFT.with(|b| b.set(p));
+    let r = match toks[0] {
+        "insert_row" => catch(|| m.insert_row(i, value)),
+        "insert_column" => catch(|| m.insert_column(i, value)),
+        _ => panic!("unknown operation {}", toks[0]),
+    };
+    CLONES_LEFT.with(|b| b.set(None));
+    r
+}
+
+pub struct Runner {
+    t: Option<AnyT>,
+    m: Option<Matrix<u64>>,
+    pm: Option<Matrix<Pc>>,
+}
 
 impl Runner {
     pub fn new() -> Runner {
-        Runner
+        Runner { t: None, m: None, pm: None }
     }
 
-    pub fn step(&mut self, _toks: &[&str]) -> String {
-        "unimplemented".into()
+    fn state(&mut self, flavour: &str) -> String {
+        match &mut self.t {
+            None => "none".into(),
+            Some(any) => on_t!(any, t => show_state(t, flavour)),
+        }
+    }
+
+    pub fn step(&mut self, toks: &[&str]) -> String {
+        let mut toks = toks;
+        if toks.first() == Some(&"@") {
+            self.t = None;
+            self.m = None;
+            self.pm = None;
+            toks = &toks[1..];
+        }
+        let read = opt_arg("read", toks).unwrap_or("copy");
+        match toks[0] {
+            "mlog" => {
+                return log_matrix(toks[1].parse().unwrap(), toks[2].parse().unwrap(), toks[3], toks[4]);
+            }
+            "zlog" => {
+                let shapes: Vec<Vec<(&'static str, usize)>> = toks[5].split(';').map(parse_shape).collect();
+                return zlog(toks[1], toks[2], toks[3], toks[4], &shapes);
+            }
+            "mnew" => {
+                let (r, c) = toks[1].split_once('x').expect("RxC");
+                let (r, c): (usize, usize) = (r.parse().unwrap(), c.parse().unwrap());
+                return match catch(|| Matrix::from_flat_row_major((r, c), (1..=(r * c) as u64).collect())) {
+                    Ok(m) => {
+                        let s = format!("ok {}", show_matrix_state(&m));
+                        self.m = Some(m);
+                        s
+                    }
+                    Err(k) => format!("panic ## kind={}", k.as_str()),
+                };
+            }
+            "pnew" => {
+                let (r, c) = toks[1].split_once('x').expect("RxC");
+                let (r, c): (usize, usize) = (r.parse().unwrap(), c.parse().unwrap());
+                return match catch(|| Matrix::from_flat_row_major((r, c), (1..=(r * c) as u64).map(Pc).collect())) {
+                    Ok(m) => {
+                        let s = format!("ok {}", show_pc_state(&m));
+                        self.pm = Some(m);
+                        s
+                    }
+                    Err(k) => format!("panic ## kind={}", k.as_str()),
+                };
+            }
+            "p" => {
+                let m = match &mut self.pm {
+                    None => return "no-matrix".into(),
+                    Some(m) => m,
+                };
+                let r = pc_op(m, &toks[1..]);
+                return format!("{} {}{}", out_str(&r), show_pc_state(m), kind_str(&r));
+            }
+            "m" => {
+                let m = match &mut self.m {
+                    None => return "no-matrix".into(),
+                    Some(m) => m,
+                };
+                let r = matrix_op(m, &toks[1..]);
+                return format!("{} {}{}", out_str(&r), show_matrix_state(m), kind_str(&r));
+            }
+            "mflat" => {
+                let (r, c, n): (usize, usize, u64) =
+                    (toks[1].parse().unwrap(), toks[2].parse().unwrap(), toks[3].parse().unwrap());
+                return show_matrix_result(catch(|| Matrix::from_flat_row_major((r, c), (1..=n).collect())));
+            }
+            "mempty" => {
+                let (r, c): (usize, usize) = (toks[1].parse().unwrap(), toks[2].parse().unwrap());
+                return show_matrix_result(catch(|| Matrix::empty(7u64, (r, c))));
+            }
+            "from" | "try_from" => {
+                let shape = parse_shape(toks[1]);
+                let n: usize = toks[2].parse().expect("n");
+                let base: u64 = toks[3].parse().expect("base");
+                let fallible = toks[0] == "try_from";
+                let (out, kind) = match construct(&shape, n, base, fallible) {
+                    Ok(Some(t)) => {
+                        self.t = Some(t);
+                        ("ok", String::new())
+                    }
+                    Ok(None) => ("err", String::new()),
+                    Err(PanicKind::Hook) => ("panic(hook)", " ## kind=hook".to_string()),
+                    Err(k) => ("panic", format!(" ## kind={}", k.as_str())),
+                };
+                return format!("{} {}{}", out, self.state(read), kind);
+            }
+            "state" => return self.state(read),
+            _ => {}
+        }
+        let any = match &mut self.t {
+            None => return "no-tensor".into(),
+            Some(any) => any,
+        };
+        match toks[0] {
+            "get" => on_t!(any, t => get(t, toks)),
+            "log" => {
+                let wi = opt_arg("wi", toks) == Some("1");
+                on_t!(any, t => log_tensor(t, toks[1], wi))
+            }
+            "log_access" => {
+                let names = parse_names(toks[1]);
+                on_t!(any, t => log_access(t, &names, toks[2]))
+            }
+            "log_rename" => {
+                let (from, set, req) = (parse_names(toks[1]), parse_names(toks[2]), parse_names(toks[3]));
+                on_t!(any, t => log_rename(t, &from, &set, &req, toks[4]))
+            }
+            "log_view" if toks[1].starts_with("index:") => log_index(any, &toks[1][6..], toks[2]),
+            "log_view" => on_t!(any, t => log_view(t, toks[1], toks[2])),
+            _ => {
+                let d = on_t!(any, t => mutate(t, toks));
+                if let Some(t2) = d.replace {
+                    self.t = Some(t2);
+                }
+                let out = if d.err { "err" } else { out_str(&d.out) };
+                format!("{} {}{}", out, self.state(read), kind_str(&d.out))
+            }
+        }
+    }
+}
+
+// ---------------------------------------------------------------------------------------------
+// generation
+// ---------------------------------------------------------------------------------------------
+
+const NAMES: [&str; 8] = ["a", "b", "c", "d", "e", "f", "x", "y"];
+const READS: [&str; 8] = ["copy", "ref", "mut", "owned", "view", "wi", "access", "refwi"];
+const FLAVOURS: [&str; 4] = ["copy", "ref", "mut", "owned"];
+
+fn product(lens: &[usize]) -> usize {
+    lens.iter().product()
+}
+
+fn shape_str(names: &[&str], lens: &[usize]) -> String {
+    if lens.is_empty() {
+        "-".into()
+    } else {
+        names.iter().zip(lens).map(|(n, l)| format!("{}:{}", n, l)).collect::<Vec<_>>().join(",")
+    }
+}
+
+fn names_str(names: &[&str]) -> String {
+    if names.is_empty() {
+        "-".into()
+    } else {
+        names.join(",")
+    }
+}
+
+/// Shapes whose element count does not fit a `usize`, with the element count a wrapped
+/// multiplication yields (2^64 arithmetic) — the count for which the unrepaired code accepted
+/// them in a release build (defect #8).
+fn overflowing() -> Vec<(Vec<usize>, usize)> {
+    let m = usize::MAX;
+    vec![
+        (vec![(1 << 63) + 1, 2], 2),
+        (vec![1 << 63, 2], 0),
+        (vec![1 << 32, 1 << 32], 0),
+        (vec![m, m], 1),
+        (vec![6148914691236517206, 3], 2),
+        (vec![(1 << 62) + 1, 4], 4),
+        (vec![2, (1 << 63) + 1], 2),
+        (vec![1 << 32, 1 << 16, 1 << 16], 0),
+        (vec![3, (1 << 62) + 1, 4], 12),
+        (vec![(1 << 63) + 3, 2], 6),
+        (vec![1 << 16, 1 << 16, 1 << 16, 1 << 16], 0),
+        (vec![2, 2, (1 << 62) + 1], 4),
+        (vec![m, 2], m - 1),
+        (vec![1 << 21, 1 << 21, 1 << 21, 2], 0),
+        (vec![2, 3, (1 << 63) + 1, 2, 1], 12),
+        (vec![2, 1, 3, 1, (1 << 62) + 1, 4], 24),
+    ]
+}
+
+struct Cur {
+    names: Vec<&'static str>,
+    lens: Vec<usize>,
+}
+
+impl Cur {
+    fn n(&self) -> usize {
+        product(&self.lens)
+    }
+}
+
+fn pick_names(g: &mut Gen, d: usize) -> Vec<&'static str> {
+    let mut pool: Vec<&'static str> = NAMES.to_vec();
+    g.rng.shuffle(&mut pool);
+    pool.truncate(d);
+    pool
+}
+
+fn random_lens(g: &mut Gen, d: usize, max_product: usize) -> Vec<usize> {
+    loop {
+        let lens: Vec<usize> = (0..d).map(|_| g.rng.range(1, 4)).collect();
+        if product(&lens) <= max_product {
+            return lens;
+        }
+    }
+}
+
+fn factorization(g: &mut Gen, n: usize, d: usize) -> Vec<usize> {
+    // a random way of writing n as a product of d factors
+    let mut lens = vec![1usize; d];
+    let mut rest = n;
+    let mut p = 2;
+    while rest > 1 && d > 0 {
+        if rest % p == 0 {
+            let i = g.rng.below(d);
+            lens[i] *= p;
+            rest /= p;
+        } else {
+            p += 1;
+        }
+    }
+    lens
+}
+
+fn read_opt(g: &mut Gen) -> String {
+    let r = *g.rng.pick(&READS);
+    g.count(&format!("read.{}", r));
+    format!("read={}", r)
+}
+
+/// a flawed or valid constructor argument for a tensor that should hold `cur`-like data
+fn emit_constructor(g: &mut Gen, at: &str, op: &str, flaw: usize, base: u64) -> Option<Cur> {
+    let d = g.rng.range(0, 4);
+    let names = pick_names(g, d);
+    let lens = random_lens(g, d, 24);
+    let n = product(&lens);
+    let read = read_opt(g);
+    let (line, ok) = match flaw {
+        0 => (format!("{}{} {} {} {} {}", at, op, shape_str(&names, &lens), n, base, read), true),
+        1 => (format!("{}{} {} {} {} {}", at, op, shape_str(&names, &lens), n + 1, base, read), false),
+        2 if n > 0 => (format!("{}{} {} {} {} {}", at, op, shape_str(&names, &lens), n - 1, base, read), false),
+        3 if d >= 2 => {
+            let mut ns = names.clone();
+            ns[d - 1] = ns[0];
+            (format!("{}{} {} {} {} {}", at, op, shape_str(&ns, &lens), n, base, read), false)
+        }
+        4 if d >= 1 => {
+            let mut ls = lens.clone();
+            let i = g.rng.below(d);
+            ls[i] = 0;
+            let count = if g.rng.chance(1, 2) { 0 } else { n / lens[i] };
+            (format!("{}{} {} {} {} {}", at, op, shape_str(&names, &ls), count, base, read), false)
+        }
+        5 => {
+            let table = overflowing();
+            let (ls, count) = g.rng.pick(&table).clone();
+            let ns = pick_names(g, ls.len());
+            let count = if count > 64 { 0 } else { count };
+            (format!("{}{} {} {} {} {}", at, op, shape_str(&ns, &ls), count, base, read), false)
+        }
+        _ => (format!("{}{} {} {} {} {}", at, op, shape_str(&names, &lens), 0, base, read), n == 0),
+    };
+    g.count(&format!("ctor.{}.{}", op, if ok { "valid" } else { "invalid" }));
+    g.count(&format!("ctor.flaw.{}", flaw));
+    g.op(line);
+    if ok {
+        Some(Cur { names, lens })
+    } else {
+        None
+    }
+}
+
+fn emit_observations(g: &mut Gen, cur: &Cur, all: bool) {
+    let d = cur.lens.len();
+    if all || g.rng.chance(1, 2) {
+        let r = read_opt(g);
+        g.op(format!("state {}", r));
+    }
+    // checked indexing inside, one past the end, far outside
+    let vias = ["get_reference", "access", "panicking", "view"];
+    let tries = if all { 3 } else { 1 };
+    for k in 0..tries {
+        let mut idx: Vec<usize> = cur.lens.iter().map(|l| g.rng.below(*l)).collect();
+        let kind = if all { k } else { g.rng.below(3) };
+        if d > 0 {
+            let i = g.rng.below(d);
+            match kind {
+                1 => idx[i] = cur.lens[i],
+                2 => idx[i] = *g.rng.pick(&[usize::MAX, usize::MAX / 2 + 1, 1 << 32]),
+                _ => {}
+            }
+        }
+        g.count(&format!("get.{}", ["inside", "one-past", "far-out"][kind]));
+        let v1_ = g.rng.pick(&vias);
+        g.op(format!("get {} via={}", show_usizes(&idx), v1_));
+    }
+    if all || g.rng.chance(1, 2) {
+        let f = *g.rng.pick(&FLAVOURS);
+        let wi = g.rng.chance(1, 3);
+        g.count(&format!("log.tensor.{}", f));
+        g.op(format!("log {}{}", f, if wi { " wi=1" } else { "" }));
+    }
+    if d >= 1 && (all || g.rng.chance(1, 2)) {
+        // a view adaptor between the iterator and the leaf: range / mask / reverse on one dimension
+        let i = g.rng.below(d);
+        let (name, len) = (cur.names[i], cur.lens[i]);
+        let name = if g.rng.chance(1, 10) { "zz" } else { name };
+        let start = g.rng.below(len + 1);
+        let l = g.rng.below(len + 2);
+        let kind = *g.rng.pick(&["range", "mask", "reverse", "index", "index"]);
+        let f = *g.rng.pick(&FLAVOURS);
+        g.count(&format!("log.view.{}.{}", kind, f));
+        if kind == "index" {
+            // select: inside, exactly one past the end (the boundary), far outside
+            let at = match g.rng.below(4) {
+                0 => len,
+                1 => len + 1 + g.rng.below(3),
+                _ => g.rng.below(len),
+            };
+            g.count(if at < len { "log.view.index.inside" } else if at == len { "log.view.index.boundary" } else { "log.view.index.outside" });
+            g.op(format!("log_view index:{}.{} {}", name, at, f));
+        } else if kind == "reverse" {
+            g.op(format!("log_view reverse:{} {}", name, f));
+        } else {
+            g.op(format!("log_view {}:{}.{}.{} {}", kind, name, start, l, f));
+        }
+    }
+    if d >= 2 && (all || g.rng.chance(1, 3)) {
+        emit_log_rename(g, cur);
+    }
+    if all || g.rng.chance(1, 2) {
+        let mut ns = cur.names.clone();
+        g.rng.shuffle(&mut ns);
+        let valid = !(d >= 1 && g.rng.chance(1, 6));
+        if !valid {
+            let i = g.rng.below(d);
+            ns[i] = if d >= 2 && g.rng.chance(1, 2) { ns[(i + 1) % d] } else { "zz" };
+        }
+        let f = *g.rng.pick(&FLAVOURS);
+        g.count(&format!("log.access.{}.{}", f, if valid { "valid" } else { "invalid" }));
+        g.op(format!("log_access {} {}", names_str(&ns), f));
+    }
+}
+
+/// a rename view whose setter is called with (often repeated) names; the survivor is then
+/// indexed by an ordering of the names it should have, or of the names that were refused
+fn emit_log_rename(g: &mut Gen, cur: &Cur) {
+    let d = cur.lens.len();
+    let from = pick_names(g, d);
+    let mut set = pick_names(g, d);
+    let repeated = g.rng.chance(2, 3);
+    if repeated {
+        let i = g.rng.below(d);
+        let j = (i + 1 + g.rng.below(d - 1)) % d;
+        set[j] = set[i];
+    }
+    // the request: a shuffle of the refused names (what a caller who did not notice the panic
+    // would ask for), of the names the view keeps, or of the accepted new names
+    let mut req = if repeated && g.rng.chance(1, 2) { from.clone() } else { set.clone() };
+    g.rng.shuffle(&mut req);
+    let f = *g.rng.pick(&FLAVOURS);
+    g.count(&format!("log.rename.set-{}.{}", if repeated { "repeated" } else { "unique" }, f));
+    g.op(format!("log_rename {} {} {} {}", names_str(&from), names_str(&set), names_str(&req), f));
+}
+
+/// one random mutator with valid or invalid arguments; returns the bookkeeping of the object
+/// the property demands afterwards
+fn emit_mutator(g: &mut Gen, cur: Cur, counter: &mut u64) -> Cur {
+    let d = cur.lens.len();
+    let n = cur.n();
+    let read = read_opt(g);
+    let invalid = g.rng.chance(2, 5);
+    let which = g.rng.below(11);
+    let tag = |g: &mut Gen, name: &str, ok: bool| {
+        g.count(&format!("op.{}.{}", name, if ok { "valid" } else { "invalid" }));
+    };
+    *counter += 100;
+    match which {
+        0 | 1 => {
+            // constructor call while holding an object
+            let op = if which == 0 { "from" } else { "try_from" };
+            let flaw = if invalid { g.rng.range(1, 6) } else { 0 };
+            match emit_constructor(g, "", op, flaw, *counter) {
+                Some(c) => c,
+                None => cur,
+            }
+        }
+        2 | 3 => {
+            let owned = which == 3;
+            let d2 = if owned { g.rng.range(0, 4) } else { d };
+            let names = pick_names(g, d2);
+            let op = if owned { "reshape_owned" } else { "reshape_mut" };
+            let mut lens = factorization(g, n, d2);
+            let mut ns = names.clone();
+            if invalid {
+                let table: Vec<(Vec<usize>, usize)> =
+                    overflowing().into_iter().filter(|(ls, c)| ls.len() == d2 && *c == n).collect();
+                match g.rng.below(4) {
+                    1 if d2 >= 2 => ns[1] = ns[0],
+                    2 if d2 >= 1 => {
+                        let i = g.rng.below(d2);
+                        lens[i] = 0;
+                    }
+                    3 if !table.is_empty() => {
+                        // a shape whose product wraps around to the stored element count
+                        lens = g.rng.pick(&table).0.clone();
+                        g.count("op.reshape.overflowing-shape");
+                    }
+                    _ if d2 >= 1 => lens[0] += 1,
+                    _ => {}
+                }
+            }
+            let valid = lens.iter().all(|l| *l > 0)
+                && lens.iter().try_fold(1usize, |a, l| a.checked_mul(*l)) == Some(n)
+                && (0..d2).all(|i| (0..i).all(|j| ns[i] != ns[j]));
+            tag(g, op, valid);
+            g.op(format!("{} {} {}", op, shape_str(&ns, &lens), read));
+            if valid {
+                Cur { names: ns, lens }
+            } else {
+                cur
+            }
+        }
+        4 => {
+            let mut names = pick_names(g, d);
+            let ok = !(invalid && d >= 2);
+            if !ok {
+                names[d - 1] = names[0];
+            }
+            tag(g, "rename", ok);
+            let via = if g.rng.chance(1, 2) { "rename" } else { "rename_owned" };
+            g.op(format!("rename {} via={} {}", names_str(&names), via, read));
+            if ok {
+                Cur { names, lens: cur.lens }
+            } else {
+                cur
+            }
+        }
+        5 | 6 => {
+            let op = if which == 5 { "transpose_mut" } else { "reorder_mut" };
+            let mut perm: Vec<usize> = (0..d).collect();
+            g.rng.shuffle(&mut perm);
+            let mut ns: Vec<&'static str> = perm.iter().map(|&i| cur.names[i]).collect();
+            let ok = !(invalid && d >= 1);
+            if !ok {
+                let i = g.rng.below(d);
+                ns[i] = if d >= 2 && g.rng.chance(1, 2) { ns[(i + 1) % d] } else { "zz" };
+            }
+            tag(g, op, ok);
+            let via = if g.rng.chance(1, 3) { "alloc" } else { "mut" };
+            g.op(format!("{} {} via={} {}", op, names_str(&ns), via, read));
+            if !ok {
+                cur
+            } else if which == 6 {
+                Cur { names: ns, lens: perm.iter().map(|&i| cur.lens[i]).collect() }
+            } else {
+                Cur { names: cur.names.clone(), lens: perm.iter().map(|&i| cur.lens[i]).collect() }
+            }
+        }
+        7 | 8 => {
+            let op = if which == 7 { "map_mut" } else { "map_mut_with_index" };
+            let p = if invalid { g.rng.below(n + 1).to_string() } else { "-".to_string() };
+            tag(g, op, !invalid || p == n.to_string());
+            let via = *g.rng.pick(&["tensor", "view", "access"]);
+            let v1_ = g.rng.range(1, 9) * 1000;
+            g.op(format!("{} {} {} via={} {}", op, v1_, p, via, read));
+            cur
+        }
+        9 => {
+            let mut ns = cur.names.clone();
+            g.rng.shuffle(&mut ns);
+            let bad_names = invalid && d >= 1 && g.rng.chance(1, 2);
+            if bad_names {
+                let i = g.rng.below(d);
+                ns[i] = if d >= 2 && g.rng.chance(1, 2) { ns[(i + 1) % d] } else { "zz" };
+            }
+            let p = if invalid && !bad_names { g.rng.below(n + 1).to_string() } else { "-".to_string() };
+            tag(g, "access_map_mut", !invalid);
+            let via = *g.rng.pick(&["from", "index_by_mut", "view"]);
+            let v1_ = g.rng.range(1, 9) * 1000;
+            g.op(format!("access_map_mut {} {} {} via={} {}", names_str(&ns), v1_, p, via, read));
+            cur
+        }
+        _ => {
+            let mut idx: Vec<usize> = cur.lens.iter().map(|l| g.rng.below(*l)).collect();
+            let ok = !(invalid && d >= 1);
+            if !ok {
+                let i = g.rng.below(d);
+                idx[i] = if g.rng.chance(1, 2) { cur.lens[i] } else { usize::MAX - g.rng.below(2) };
+            }
+            tag(g, "set", ok);
+            let via = *g.rng.pick(&["tensor", "view", "access"]);
+            g.op(format!("set {} {} via={} {}", show_usizes(&idx), 500000 + *counter, via, read));
+            cur
+        }
+    }
+}
+
+pub fn gen(g: &mut Gen) {
+    let thorough = g.thorough;
+    // A. constructors: every flaw, both forms, from nothing and while holding an object
+    let reps = if thorough { 40 } else { 8 };
+    for _ in 0..reps {
+        for op in ["from", "try_from"] {
+            for flaw in 0..=6 {
+                let mut counter = 0u64;
+                let first = emit_constructor(g, "@ ", op, flaw, 0);
+                g.count("case.constructor");
+                match first {
+                    Some(cur) => {
+                        emit_observations(g, &cur, true);
+                        // a rejected second constructor call must leave the first object alone
+                        counter += 100;
+                        let flaw2 = g.rng.range(1, 5);
+                        let op2 = if g.rng.chance(1, 2) { "from" } else { "try_from" };
+                        let _ = emit_constructor(g, "", op2, flaw2, counter);
+                        emit_observations(g, &cur, false);
+                    }
+                    None => {
+                        g.op("state".to_string());
+                        g.op("log copy".to_string());
+                        counter += 100;
+                        if let Some(cur) = emit_constructor(g, "", op, 0, counter) {
+                            emit_observations(g, &cur, false);
+                        }
+                    }
+                }
+            }
+        }
+    }
+    // B. every shape whose element count overflows, through every validating entry point
+    for (lens, count) in overflowing() {
+        if count > 64 {
+            continue;
+        }
+        let d = lens.len();
+        for op in ["from", "try_from", "reshape_mut", "reshape_owned"] {
+            let names = pick_names(g, d);
+            g.count(&format!("overflow.{}", op));
+            g.count("case.overflow");
+            if op == "from" || op == "try_from" {
+                let r_ = read_opt(g);
+                g.op(format!("@ {} {} {} 0 {}", op, shape_str(&names, &lens), count, r_));
+                g.op("state".to_string());
+                g.op(format!("get {}", show_usizes(&vec![0; d])));
+                g.op("log copy".to_string());
+            } else if count > 0 {
+                // start from a valid tensor with `count` elements (and the same dimensionality)
+                let mut start = vec![1usize; d];
+                start[0] = count;
+                let ns = pick_names(g, d);
+                g.op(format!("@ from {} {} 0", shape_str(&ns, &start), count));
+                let r_ = read_opt(g);
+                g.op(format!("{} {} {}", op, shape_str(&names, &lens), r_));
+                let cur = Cur { names: ns, lens: start };
+                emit_observations(g, &cur, true);
+            }
+        }
+    }
+    // C. random histories of mutators (40 % with invalid arguments / panicking closures)
+    let histories = if thorough { 1500 } else { 150 };
+    for _ in 0..histories {
+        let d = g.rng.range(0, 4);
+        let names = pick_names(g, d);
+        let lens = random_lens(g, d, 24);
+        g.count(&format!("history.start.D{}", d));
+        g.count("case.history");
+        g.op(format!("@ from {} {} 0", shape_str(&names, &lens), product(&lens)));
+        let mut cur = Cur { names, lens };
+        let mut counter = 0u64;
+        let len = g.rng.range(4, if thorough { 20 } else { 12 });
+        for _ in 0..len {
+            cur = emit_mutator(g, cur, &mut counter);
+            if g.rng.chance(1, 3) {
+                emit_observations(g, &cur, false);
+            }
+        }
+        emit_observations(g, &cur, true);
+    }
+    // D. closures panicking at every position, through every path, on small shapes
+    let small: Vec<Vec<usize>> = vec![vec![], vec![1], vec![3], vec![2, 2], vec![2, 3], vec![3, 1, 2], vec![2, 2, 2]];
+    for lens in &small {
+        let d = lens.len();
+        let n = product(lens);
+        let names: Vec<&'static str> = NAMES[..d].to_vec();
+        for p in 0..=n {
+            if !thorough && p > 2 && p + 1 < n {
+                continue;
+            }
+            g.count("case.closure-panic");
+            g.op(format!("@ from {} {} 10", shape_str(&names, lens), n));
+            for via in ["tensor", "view", "access"] {
+                let r_ = read_opt(g);
+                g.op(format!("map_mut 1000 {} via={} {}", p, via, r_));
+                let r_ = read_opt(g);
+                g.op(format!("map_mut_with_index 20000 {} via={} {}", p, via, r_));
+            }
+            let mut ns = names.clone();
+            ns.reverse();
+            for via in ["from", "index_by_mut", "view"] {
+                let r_ = read_opt(g);
+                g.op(format!("access_map_mut {} 300000 {} via={} {}", names_str(&ns), p, via, r_));
+            }
+            let cur = Cur { names: names.clone(), lens: lens.clone() };
+            emit_observations(g, &cur, true);
+        }
+    }
+    // E. reorder_mut / transpose_mut: the in-place square branch and the fallback
+    for lens in [vec![1, 1], vec![2, 2], vec![3, 3], vec![4, 4], vec![2, 3], vec![3, 2], vec![2, 2, 2], vec![2, 3, 2]] {
+        let d = lens.len();
+        let names: Vec<&'static str> = NAMES[..d].to_vec();
+        for op in ["reorder_mut", "transpose_mut"] {
+            for perm in permutations(d) {
+                for via in ["mut", "alloc"] {
+                    if !thorough && d == 3 && via == "alloc" {
+                        continue;
+                    }
+                    g.count(&format!("case.{}", op));
+                    g.op(format!("@ from {} {} 0", shape_str(&names, &lens), product(&lens)));
+                    let ns: Vec<&'static str> = perm.iter().map(|&i| names[i]).collect();
+                    // first an invalid name list (repeated / unknown name), then the valid one
+                    let mut bad = ns.clone();
+                    bad[d - 1] = if perm[0] % 2 == 0 { bad[0] } else { "zz" };
+                    let r_ = read_opt(g);
+                    g.op(format!("{} {} via={} {}", op, names_str(&bad), via, r_));
+                    let r_ = read_opt(g);
+                    g.op(format!("{} {} via={} {}", op, names_str(&ns), via, r_));
+                    g.op("log mut".to_string());
+                    g.op(format!("log_access {} ref", names_str(&names)));
+                }
+            }
+        }
+    }
+    // F. matrix iteration logs and size-validating constructors
+    let max = if thorough { 5 } else { 3 };
+    for rows in 1..=max {
+        for cols in 1..=max {
+            for order in ["row_major", "column_major"] {
+                for f in FLAVOURS {
+                    g.count(&format!("mlog.{}.{}", order, f));
+                    g.op(format!("@ mlog {} {} {} {}", rows, cols, order, f));
+                }
+            }
+            for f in ["copy", "ref", "mut"] {
+                for r in 0..=rows {
+                    g.count("mlog.row");
+                    g.op(format!("@ mlog {} {} row:{} {}", rows, cols, r, f));
+                }
+                for c in 0..=cols {
+                    g.count("mlog.column");
+                    g.op(format!("@ mlog {} {} column:{} {}", rows, cols, c, f));
+                }
+                g.count("mlog.diagonal");
+                g.op(format!("@ mlog {} {} diagonal {}", rows, cols, f));
+            }
+        }
+    }
+    // I. the rename setter on 3-dimensional tensors whose dimensions all differ in length, every
+    // placement of a repeated name, every ordering requested afterwards
+    for lens in [vec![1usize, 3, 2], vec![2, 1, 3], vec![3, 2, 1], vec![2, 2, 3]] {
+        let names: Vec<&'static str> = NAMES[..3].to_vec();
+        for set in [["x", "x", "y"], ["x", "y", "x"], ["y", "x", "x"], ["x", "y", "z"], ["x", "x", "x"]] {
+            g.count("case.rename-setter");
+            g.op(format!("@ from {} {} 0", shape_str(&names, &lens), product(&lens)));
+            for perm in permutations(3) {
+                let req: Vec<&str> = perm.iter().map(|&i| set[i]).collect();
+                let f = FLAVOURS[(perm[0] + perm[1] * 2) % 4];
+                g.op(format!("log_rename d,e,f {} {} {}", set.join(","), req.join(","), f));
+            }
+            // and with the names the view must have kept
+            g.op(format!("log_rename d,e,f {} f,d,e mut", set.join(",")));
+            g.op("state".to_string());
+        }
+    }
+    // J. stack / chain views over 1..4 mutable tensors (tuple and array forms) whose lengths along
+    // the chained dimension differ; every iteration flavour and the in-place maps
+    let reps = if thorough { 6 } else { 1 };
+    let actions = ["copy", "ref", "mut", "owned", "map_mut", "map_mut_wi"];
+    for _ in 0..reps {
+        for (form, k) in [("tuple", 2usize), ("tuple", 3), ("tuple", 4), ("array", 1), ("array", 2), ("array", 3), ("array", 4)] {
+            for action in actions {
+                // chain
+                let d = g.rng.range(1, 3);
+                let names = pick_names(g, d);
+                let a = g.rng.below(d);
+                let other = random_lens(g, d, 6);
+                let mut along_lens: Vec<usize> = (0..k).map(|_| g.rng.range(1, 3)).collect();
+                if k == 4 && g.rng.chance(1, 2) {
+                    along_lens = vec![2, 1, 1, 3];
+                }
+                if k >= 2 && along_lens.iter().all(|l| *l == along_lens[0]) {
+                    along_lens[k - 1] = along_lens[0] % 3 + 1;
+                }
+                let bad = g.rng.chance(1, 8);
+                let shapes: Vec<String> = (0..k)
+                    .map(|i| {
+                        let mut ls = other.clone();
+                        ls[a] = along_lens[i];
+                        if bad && i == k - 1 && d >= 2 {
+                            ls[(a + 1) % d] += 1;
+                        }
+                        shape_str(&names, &ls)
+                    })
+                    .collect();
+                let along = if bad && d < 2 { "zz" } else { names[a] };
+                g.count(&format!("zlog.chain.{}{}.{}", form, k, action));
+                g.op(format!("@ zlog chain {} {} {} {}", form, along, action, shapes.join(";")));
+                // stack: identical shapes, a new dimension at every position
+                let d = g.rng.range(0, 2);
+                let names = pick_names(g, d);
+                let lens = random_lens(g, d, 6);
+                let extra = if g.rng.chance(1, 8) { 1 } else { 0 };
+                let pos = g.rng.below(d + 1 + extra);
+                let shapes: Vec<String> = (0..k)
+                    .map(|i| {
+                        let mut ls = lens.clone();
+                        if g.rng.chance(1, 12) && d >= 1 && i == k - 1 && k >= 2 {
+                            ls[0] += 1;
+                        }
+                        shape_str(&names, &ls)
+                    })
+                    .collect();
+                g.count(&format!("zlog.stack.{}{}.{}", form, k, action));
+                g.op(format!("@ zlog stack {} {}:s {} {}", form, pos, action, shapes.join(";")));
+            }
+        }
+    }
+    // every assignment of lengths 1..3 to four chained sources (tuple form, mutable paths)
+    for code4 in 0..81usize {
+        if !thorough && code4 % 3 != 0 {
+            continue;
+        }
+        let ls = [code4 % 3 + 1, code4 / 3 % 3 + 1, code4 / 9 % 3 + 1, code4 / 27 + 1];
+        let action = ["mut", "owned", "map_mut", "map_mut_wi"][code4 % 4];
+        let shapes: Vec<String> = ls.iter().map(|l| format!("a:{},b:2", l)).collect();
+        g.count("zlog.chain.tuple4.all-lengths");
+        g.op(format!("@ zlog chain tuple a {} {}", action, shapes.join(";")));
+    }
+    // G. matrices resized with invalid arguments, then walked (the survivor is used unguarded)
+    let cases = if thorough { 400 } else { 60 };
+    for _ in 0..cases {
+        let (mut r, mut c) = (g.rng.range(1, 3), g.rng.range(1, 3));
+        g.count("case.matrix-survivor");
+        g.op(format!("@ mnew {}x{}", r, c));
+        let len = g.rng.range(2, 6);
+        for _ in 0..len {
+            let invalid = g.rng.chance(1, 2);
+            let which = g.rng.below(7);
+            let name = ["insert_row", "insert_row_with", "insert_column", "insert_column_with", "remove_row",
+                "remove_column", "retain_mut"][which];
+            g.count(&format!("mop.{}.{}", name, if invalid { "invalid" } else { "valid" }));
+            match which {
+                0 | 2 => {
+                    let max = if which == 0 { r } else { c };
+                    let p = if invalid { max + 1 + g.rng.below(2) } else { g.rng.below(max + 1) };
+                    g.op(format!("m {} {} 77", name, p));
+                    if !invalid {
+                        if which == 0 { r += 1 } else { c += 1 }
+                    }
+                }
+                1 | 3 => {
+                    let (max, need) = if which == 1 { (r, c) } else { (c, r) };
+                    let p = g.rng.below(max + 1);
+                    let k = if invalid { g.rng.below(need) } else { need + g.rng.below(2) };
+                    let vs: Vec<String> = (0..k).map(|i| (900 + i).to_string()).collect();
+                    g.op(format!("m {} {} {}", name, p, if vs.is_empty() { "-".to_string() } else { vs.join(",") }));
+                    if !invalid {
+                        if which == 1 { r += 1 } else { c += 1 }
+                    }
+                }
+                4 | 5 => {
+                    let max = if which == 4 { r } else { c };
+                    let p = if invalid { max + g.rng.below(3) } else { g.rng.below(max) };
+                    g.op(format!("m {} {}", name, p));
+                    if !invalid && max > 1 {
+                        if which == 4 { r -= 1 } else { c -= 1 }
+                    }
+                }
+                _ => {
+                    // retain_mut: an emptying retention panics; otherwise keep a prefix of the rows
+                    if invalid {
+                        let e = *g.rng.pick(&["none", "range(7,9)", "not(all)", "and(single(0),single(1))"]);
+                        if g.rng.chance(1, 2) {
+                            g.op(format!("m retain_mut rows={} cols=all", e));
+                        } else {
+                            g.op(format!("m retain_mut rows=all cols={}", e));
+                        }
+                    } else {
+                        let keep = g.rng.range(1, r);
+                        g.op(format!("m retain_mut rows=range(0,{}) cols=all", keep));
+                        r = keep;
+                    }
+                }
+            }
+        }
+    }
+    // H. insert_row / insert_column with an element type whose Clone panics on its p-th call
+    // (p = n - 1, where the number of clone calls depends on how the clones are made, is left out)
+    for (r0, c0) in [(1usize, 1usize), (1, 3), (2, 2), (3, 2), (2, 4), (3, 3)] {
+        for which in ["insert_row", "insert_column"] {
+            let n = if which == "insert_row" { c0 } else { r0 };
+            let max = if which == "insert_row" { r0 } else { c0 };
+            for p in 0..=n + 1 {
+                if p + 1 == n {
+                    continue;
+                }
+                g.count(&format!("case.clone-panic.{}", which));
+                g.op(format!("@ pnew {}x{}", r0, c0));
+                let at = g.rng.below(max + 1);
+                g.op(format!("p {} {} 500 {}", which, at, p));
+                // the survivor is used again: a second insertion that completes, then one beyond
+                let at2 = g.rng.below(max + 1);
+                g.op(format!("p {} {} 600 -", which, at2));
+                g.op(format!("p {} {} 700 -", which, max + 5));
+            }
+        }
+    }
+    for (r, c, n) in [(2usize, 3usize, 6u64), (2, 3, 5), (2, 3, 7), (0, 3, 0), (3, 0, 0), (1, 1, 1), (0, 0, 0), (4, 1, 4)] {
+        g.count("mflat.small");
+        g.op(format!("@ mflat {} {} {}", r, c, n));
+    }
+    for (r, c) in [(2usize, 3usize), (1, 1), (0, 3), (3, 0), (0, 0), (5, 2)] {
+        g.count("mempty.small");
+        g.op(format!("@ mempty {} {}", r, c));
+    }
+    for (lens, count) in overflowing() {
+        if lens.len() == 2 && count <= 64 {
+            g.count("mflat.overflowing-size");
+            g.op(format!("@ mflat {} {} {}", lens[0], lens[1], count));
+            g.count("mempty.overflowing-size");
+            g.op(format!("@ mempty {} {}", lens[0], lens[1]));
+        }
     }
 }
